@@ -167,6 +167,48 @@ Theorem C20_sprim_is_model_primitive :
 Proof. exact sprim_is_model_primitive. Qed.
 Print Assumptions C20_sprim_is_model_primitive.
 
+(* the raw s-s block entry of the model IS the abstract double sum (any two shells with l = 0 and the
+   default component list; positive exponents) *)
+Theorem C20_ss_entry_dsum :
+  forall xa ya za ea ca sa_ la_ xb yb zb eb cb sb_ lb_ m1 m2,
+  let sa := ss_shell xa ya za ea ca sa_ la_ in let sb := ss_shell xb yb zb eb cb sb_ lb_ in
+  m1 < nseg sa -> m2 < nseg sb ->
+  (forall x, In x ea -> (0 < x)%R) -> (forall x, In x eb -> (0 < x)%R) ->
+  nth4 RK m1 0 m2 0 (overlap_block RK sa sb)
+  = dsum (col m1 ea ca) (col m2 eb cb) (fun a b => sprim a b (dist2 RK sa sb)).
+Proof. exact ss_entry_dsum. Qed.
+Print Assumptions C20_ss_entry_dsum.
+
+(* the property's last clause on the model itself: entry of the normalised s-s block (the model's own
+   contraction norms [norm_cont]) of a removed pair *)
+Theorem C20_removed_s_bound_normalised :
+  forall xa ya za ea ca sa_ la_ xb yb zb eb cb sb_ lb_ m1 m2 (tol : R),
+  let sa := ss_shell xa ya za ea ca sa_ la_ in let sb := ss_shell xb yb zb eb cb sb_ lb_ in
+  pos_exps sa -> pos_exps sb -> length ca = length ea -> length cb = length eb ->
+  m1 < nseg sa -> m2 < nseg sb ->
+  (0 < tol <= 1)%R ->
+  is_screened RK (Some tol) sa sb = true ->
+  let Sa := (ncont sa m1 * abs_sum (col m1 ea ca))%R in let Sb := (ncont sb m2 * abs_sum (col m2 eb cb))%R in
+  let e := nth4 RK m1 0 m2 0 (normalise RK Rmult (norm_cont RK sa) (norm_cont RK sb) (overlap_block RK sa sb)) in
+  (Rabs e <= tol * Sa * Sb)%R /\ ((0 < Sa)%R -> (0 < Sb)%R -> (Rabs e < tol * Sa * Sb)%R).
+Proof. exact removed_s_bound_normalised. Qed.
+Print Assumptions C20_removed_s_bound_normalised.
+
+(* ... and on the entry of the processed block the assembly places in the matrix (Cartesian s shells;
+   [C20_screened_assembly] says this is the block replaced by zeros when the pair is removed) *)
+Theorem C20_removed_s_bound_pblock :
+  forall xa ya za ea ca la_ xb yb zb eb cb lb_ m1 m2 (tol : R),
+  let sa := ss_shell xa ya za ea ca false la_ in let sb := ss_shell xb yb zb eb cb false lb_ in
+  pos_exps sa -> pos_exps sb -> length ca = length ea -> length cb = length eb ->
+  m1 < nseg sa -> m2 < nseg sb ->
+  (0 < tol <= 1)%R ->
+  is_screened RK (Some tol) sa sb = true ->
+  let Sa := (ncont sa m1 * abs_sum (col m1 ea ca))%R in let Sb := (ncont sb m2 * abs_sum (col m2 eb cb))%R in
+  let e := nth m2 (nth m1 (pblock RK 0%R Rplus Rmult (overlap_block RK) (prep RK sa) (prep RK sb)) []) 0%R in
+  (Rabs e <= tol * Sa * Sb)%R /\ ((0 < Sa)%R -> (0 < Sb)%R -> (Rabs e < tol * Sa * Sb)%R).
+Proof. exact removed_s_bound_pblock. Qed.
+Print Assumptions C20_removed_s_bound_pblock.
+
 (* ---- hypotheses are satisfiable: concrete instances ---- *)
 Example C20_screen_monotone_ex :
   is_screened RK (Some (3 / 4)%R) (ex_shell 0) (ex_shell 3) = true.
@@ -184,3 +226,10 @@ Example C20_removed_s_bound_ex :
   (Rabs (S_contr 1 1 [(1, 1)] [(1, 1)] 9) < / 2 * (1 * abs_sum [(1, 1)]) * (1 * abs_sum [(1, 1)]))%R.
 Proof. exact removed_s_bound_ex. Qed.
 Print Assumptions C20_removed_s_bound_ex.
+
+Example C20_removed_s_bound_pblock_ex :
+  let sa := ss_shell 0 0 0 [1%R] [[1%R]] false [] in let sb := ss_shell 3 0 0 [1%R] [[1%R]] false [] in
+  (Rabs (nth 0 (nth 0 (pblock RK 0 Rplus Rmult (overlap_block RK) (prep RK sa) (prep RK sb)) []) 0)
+   <= / 2 * (ncont sa 0 * abs_sum (col 0 [1] [[1]])) * (ncont sb 0 * abs_sum (col 0 [1] [[1]])))%R.
+Proof. exact removed_s_bound_pblock_ex. Qed.
+Print Assumptions C20_removed_s_bound_pblock_ex.
